@@ -19,15 +19,30 @@ pub enum ChildResult {
 
 /// Run `svcheck worker pp <spec>` with a watchdog.
 pub fn run_child(spec: &Value, dir: &Path, budget_s: u64) -> Result<ChildResult, String> {
+    run_child_limited(spec, dir, budget_s, None)
+}
+
+/// `run_child` with an address-space limit for the child (ulimit -v, in KiB): a runaway allocation ends the child
+/// instead of the machine's memory.
+pub fn run_child_limited(spec: &Value, dir: &Path, budget_s: u64, mem_limit_kb: Option<u64>) -> Result<ChildResult, String> {
     let exe = std::env::current_exe().map_err(|e| e.to_string())?;
     let spec_path = dir.join("spec.json");
     std::fs::write(&spec_path, serde_json::to_string(spec).unwrap()).map_err(|e| e.to_string())?;
     let out_path = dir.join("child_out.json");
     let out_file = std::fs::File::create(&out_path).map_err(|e| e.to_string())?;
-    let mut child = std::process::Command::new(exe)
-        .arg("worker")
-        .arg("pp")
-        .arg(&spec_path)
+    let mut cmd = match mem_limit_kb {
+        None => {
+            let mut c = std::process::Command::new(&exe);
+            c.arg("worker").arg("pp").arg(&spec_path);
+            c
+        }
+        Some(kb) => {
+            let mut c = std::process::Command::new("sh");
+            c.arg("-c").arg(format!("ulimit -v {}; exec \"$0\" worker pp \"$1\"", kb)).arg(&exe).arg(&spec_path);
+            c
+        }
+    };
+    let mut child = cmd
         .current_dir(dir)
         .stdout(out_file)
         .stderr(std::process::Stdio::null())
@@ -361,6 +376,31 @@ impl Prop for C09 {
             "a child killed by a signal (stack overflow, abort) counts as a violation".into(),
             "a case that does not finish within 20 s is re-run alone with a 150 s budget; only if it again does not finish is it reported as a hang (these inputs normally cost milliseconds, a margin of 10^4)".into(),
         ]
+    }
+    fn witness(&self, ctx: &Ctx, f: &crate::findings::Finding) -> Result<bool, Fail> {
+        // witness {"kind":"child_no_limit","source":…}: a self-recursive macro whose argument grows; still fails iff the
+        // child process (address space limited to 4 GiB, 60 s) dies or hangs instead of returning ExceedRecursiveLimit
+        if f.witness["kind"].as_str() != Some("child_no_limit") {
+            return Ok(false);
+        }
+        let src = f.witness["source"].as_str().unwrap_or("");
+        let dir = ctx.scratch.join(format!("witness-{}", f.id));
+        let _ = std::fs::remove_dir_all(&dir);
+        std::fs::create_dir_all(&dir).map_err(|e| Fail::new(format!("harness: {}", e), json!({"infrastructure": true})))?;
+        let spec = json!({"top_path": format!("{}/top.sv", dir.display()), "top_text": src, "include_paths": [dir.display().to_string()], "ignore_include": false});
+        let res = run_child_limited(&spec, &dir, 60, Some(4_000_000)).map_err(|e| Fail::new(format!("harness: {}", e), json!({"infrastructure": true})))?;
+        let _ = std::fs::remove_dir_all(&dir);
+        match res {
+            ChildResult::Crashed(_) | ChildResult::TimedOut => Ok(true),
+            ChildResult::Json(v) => {
+                let e = v["error"].as_str().unwrap_or("");
+                if peel_kind(e).1 == "ExceedRecursiveLimit" {
+                    Ok(false)
+                } else {
+                    Err(Fail::new(format!("witness of {} neither ends in ExceedRecursiveLimit nor exhausts memory: {}", f.id, v), json!({})))
+                }
+            }
+        }
     }
     fn campaigns(&self, _ctx: &Ctx) -> Vec<Campaign> {
         vec![
